@@ -3,11 +3,12 @@
 # usage: trymutant.sh <patch.diff> <prop> [<prop>...]
 P="$1"; shift
 cd /repo && git diff --quiet || { echo "/repo working tree not clean"; exit 2; }
-git apply --3way "$P" 2>/dev/null || git apply "$P" || { echo "patch does not apply"; exit 2; }
+git apply --check "$P" 2>/dev/null || { echo "patch does not apply"; exit 2; }
+git apply "$P" || { echo "patch does not apply"; git reset -q --hard HEAD; exit 2; }
 git reset -q 2>/dev/null
 cd /verif
 for id in "$@"; do
   out=$(./check.sh $id quick 2>&1); rc=$?
   echo "== $id rc=$rc"; echo "$out" | grep -E "^(VIOLATED|UNDECIDED|CHECK-FAILURE|VIOLATION)" | cut -c1-330
 done
-cd /repo && git checkout -q -- . && git clean -fdq -e '!*' 2>/dev/null; git status --short | head -3
+cd /repo && git reset -q --hard HEAD; git status --short | head -3
